@@ -142,6 +142,22 @@ def scenarios(g, rng):
         return [lambda d=d: attempt(d) for d in docs[:2]]
     out.append(Scenario("shared-invalid-by-reference", shared_invalid_by_reference))
 
+    def role_twins():
+        # one mapping in two roles: a valid SCHEMA (a field named `required`) in one thread, an invalid RULES SET in the other
+        reset_process_state()
+        S = {'required': {'type': 'boolean'}}
+
+        def attempt(schema, d):
+            try:
+                v = pool.PoolValidator(schema)
+            except cerberus.SchemaError:
+                return "rejected"
+            return ("accepted",) + tuple(observe(v, d)[:2])
+        return [lambda: attempt(S, {'required': True}),
+                lambda: attempt({'fields': {'type': 'dict', 'valuesrules': S}}, {'fields': {'k': 1}}),
+                lambda: attempt({'rows': {'type': 'list', 'schema': {'type': 'dict', 'schema': S}}}, {'rows': [{'required': 'x'}]})]
+    out.append(Scenario("shared-invalid-role-twins", role_twins))
+
     def earlier_and_constructing():
         reset_process_state()
         shared = copy.deepcopy(canon)
